@@ -13,7 +13,7 @@ def _install_classifier():
             if bad:
                 sub = [cases[i] for i in bad]
                 for key, fn in (("wl-to-host-pre-policy-accepts", "classify_pre_policy"),
-                                ("unknown-wl-established-via-wildcard-hep", "classify_wildcard_est")):
+                                ("unknown-wl-established-accepted-early", "classify_est_early")):
                     r2, _ = orig(ctx, imports, fn, sub, **kw)
                     for (j, is_class, _o) in r2:
                         if is_class:
@@ -27,17 +27,17 @@ def classify(case_line):
     tags = case_line.get("tags", [])
     if "class:pre-policy" in tags and "wl-to-host-pre-policy-accepts" in ks:
         return "wl-to-host-pre-policy-accepts"
-    if "class:wildcard-est" in tags and "unknown-wl-established-via-wildcard-hep" in ks:
-        return "unknown-wl-established-via-wildcard-hep"
+    if "class:est-early" in tags and "unknown-wl-established-accepted-early" in ks:
+        return "unknown-wl-established-accepted-early"
     return None
 
 CFG = dict(
     imports=["From Verif.Common Require Import Packet Ipt.", "From Verif.C40 Require Import Model Spec.",
              "Open Scope N_scope.", "Open Scope string_scope."],
     checker="check_case",
-    n=dict(quick=90, thorough=1500),
-    shard=12,
-    deps=["Common"],
+    n=dict(quick=30, thorough=1200),
+    shard=6,
+    deps=["Common", "C08"],
     rule="generated rules.Config (4 mark layouts, 6 workload-prefix sets, 0-13 inbound/outbound failsafe entries with nets of either "
          "family / bare IPs / unparsable nets, IPIP, VXLAN v4/v6 with port possibly equal to a failsafe port, Wireguard, OpenStack special "
          "cases, DefaultEndpointToHostAction x FilterAllowAction x MangleAllowAction x FilterDenyAction, both IP versions) x generated "
